@@ -9,12 +9,18 @@ if [ "${1:-}" = "--clean" ]; then rm -rf "$M"; exit 0; fi
 patch=$1; id=$2; tier=${3:-quick}
 mkdir -p "$M/out"
 rsync -a --delete --exclude target --exclude .git /repo/ "$M/repo/"
+# files restored by rsync keep their old mtime, which cargo would take for "unchanged": touch
+# whatever the previous mutant had modified so that it is rebuilt from the restored source
+if [ -f "$M/last_patched" ]; then
+    while read -r f; do [ -f "$M/repo/$f" ] && touch "$M/repo/$f"; done < "$M/last_patched"
+fi
 if [ "$patch" != "-" ]; then
     case "$patch" in
     *.sh) (cd "$M/repo" && bash "$patch") || { echo "MUTATION SCRIPT FAILED"; exit 2; } ;;
     *) (cd "$M/repo" && patch -p1 --no-backup-if-mismatch < "$patch") || { echo "PATCH FAILED"; exit 2; } ;;
     esac
 fi
+(cd "$M/repo" && diff -rq --exclude target --exclude .git /repo . 2>/dev/null | sed -n 's|^Files /repo/\(.*\) and .*|\1|p') > "$M/last_patched"
 rsync -a --exclude target /verif/harness/ "$M/harness/"
 sed -i "s|path = \"/repo/|path = \"$M/repo/|" "$M/harness/Cargo.toml"
 (cd "$M/harness" && CARGO_NET_OFFLINE=true cargo build --quiet 2>"$M/build.log") || { echo "BUILD FAILED"; tail -20 "$M/build.log"; exit 2; }
